@@ -210,6 +210,18 @@ macro_rules! geom {
             env_v!("project_onto_normalized", va.project_onto_normalized(vn), pn.clone(), spn.clone());
             env_v!("reject_from_normalized", va.reject_from_normalized(vn), (0..N).map(|i| a[i] - pn[i]).collect(), (0..N).map(|i| spn[i] + 2.0 * eps * (a[i].abs() + pn[i].abs())).collect());
             env_v!("reflect", va.reflect(vn), (0..N).map(|i| a[i] - 2.0 * dn * nrm[i]).collect(), (0..N).map(|i| 2.0 * (nn + 3.0) * eps * (a[i].abs() + 2.0 * sn * nrm[i].abs())).collect());
+            // normals that are "normalized" only within glam's own tolerance (|n|^2 = 1 +- 1e-4): the
+            // documented formulas a.n n, a - a.n n, a - 2 a.n n apply to the normal as stored (no division)
+            for k in [1.00005f64, 0.99995] {
+                let vk: T = build_f64(&scale(&normalize(&b), k));
+                let nk = f64s(&vk);
+                let (dk, sk) = (dot(&a, &nk), dot_abs(&a, &nk));
+                let pk: Vec<f64> = (0..N).map(|i| nk[i] * dk).collect();
+                let spk: Vec<f64> = (0..N).map(|i| 2.0 * (nn + 1.0) * eps * nk[i].abs() * sk).collect();
+                env_v!("project_onto_normalized(nearly unit normal)", va.project_onto_normalized(vk), pk.clone(), spk.clone());
+                env_v!("reject_from_normalized(nearly unit normal)", va.reject_from_normalized(vk), (0..N).map(|i| a[i] - pk[i]).collect(), (0..N).map(|i| spk[i] + 2.0 * eps * (a[i].abs() + pk[i].abs())).collect());
+                env_v!("reflect(nearly unit normal)", va.reflect(vk), (0..N).map(|i| a[i] - 2.0 * dk * nk[i]).collect(), (0..N).map(|i| 2.0 * (nn + 3.0) * eps * (a[i].abs() + 2.0 * sk * nk[i].abs())).collect());
+            }
             // refract: unit incident and normal
             let vi: T = build_f64(&normalize(&a));
             let inc = f64s(&vi);
